@@ -1,0 +1,77 @@
+//go:build verif
+
+// Role contracts for the closures and wrappers that the templates under
+// internal/templates emit. cffvc (pass G) generates a corpus of directive
+// programs with the working-tree generator on every run, recognises every
+// directive wrapper and job closure in the *output*, and checks each against
+// the contract of its role, for all inputs of that instance: every value of the
+// captured cells, every outcome of the user function (returns, returns an
+// error, panics with any non-nil value).
+//
+// Vocabulary bound by the pass at an exit of a job closure:
+//   hasPred hasFallback hasErr wantCtx   static flags of the instance
+//   pred predPanic                       entry values of pN / pNPanicRecover
+//   ncalls called upanic pv uerr         user-function call on this path: count,
+//                                        panicked?, panic value, returned error
+//   argsOK                               the call's arguments are (ctx parameter,)
+//                                        entry values of the cells of the
+//                                        parameter types (flow) / the
+//                                        per-iteration cells (slice, map)
+//   result panics                        returned error; a panic escapes
+//   ranEntry ranFinal                    the task's ran flag before / after
+//   outUnchanged outFromCall outFromFallback   final values of the vN cells
+//   events("A,B") evarg("A", i)          emitter calls on this path, in order
+//   isPanicErr(e, v)                     e is a *cff.PanicError with Value == v
+//   shapeOK                              every output/parameter type has its cell
+//
+// This file contains comments only.
+
+package internal
+
+//@ func role:flow-task
+//@   requires job-runs-at-most-once: !ranEntry
+//@   requires predicate-panic-leaves-false: implies(hasPred && predPanic != nil, !pred)
+//@   ensures [C04] no-escaping-panic: !panics
+//@   ensures [C02] shape: shapeOK
+//@   ensures [C11] predicate-false-skips-task: implies(hasPred && !pred && predPanic == nil, ncalls == 0 && result == nil && !ranFinal && outUnchanged && events(""))
+//@   ensures [C04,C11] predicate-panic-without-fallback-is-panic-error: implies(hasPred && predPanic != nil && !hasFallback, ncalls == 0 && isPanicErr(result, predPanic) && !ranFinal && outUnchanged && events("TaskPanic") && evarg("TaskPanic", 2) == predPanic)
+//@   ensures [C11,C04] predicate-panic-with-fallback-substitutes: implies(hasPred && predPanic != nil && hasFallback, ncalls == 0 && result == nil && !ranFinal && outFromFallback && events("TaskPanicRecovered") && evarg("TaskPanicRecovered", 2) == predPanic)
+//@   ensures [C02,C11,C09] enabled-task-called-once-with-provider-values: implies(!hasPred || pred, ncalls == 1 && argsOK)
+//@   ensures [C02,C11,C18] success-stores-results: implies(called && !upanic && uerr == nil, result == nil && outFromCall && ranFinal && events("TaskSuccess,TaskDone"))
+//@   ensures [C07,C08,C18] error-without-fallback-returned-unchanged: implies(called && !upanic && uerr != nil && !hasFallback, result == uerr && ranFinal && events("TaskError,TaskDone") && evarg("TaskError", 2) == uerr)
+//@   ensures [C11,C18] error-with-fallback-substitutes: implies(called && !upanic && uerr != nil && hasFallback, result == nil && outFromFallback && ranFinal && events("TaskErrorRecovered,TaskDone") && evarg("TaskErrorRecovered", 2) == uerr)
+//@   ensures [C04,C18] panic-without-fallback-is-panic-error: implies(upanic && !hasFallback, isPanicErr(result, pv) && ranFinal && events("TaskPanic,TaskDone") && evarg("TaskPanic", 2) == pv)
+//@   ensures [C11,C04,C18] panic-with-fallback-substitutes: implies(upanic && hasFallback, result == nil && outFromFallback && ranFinal && events("TaskPanicRecovered,TaskDone") && evarg("TaskPanicRecovered", 2) == pv)
+
+//@ func role:flow-predicate
+//@   ensures [C04] no-escaping-panic: !panics
+//@   ensures [C11,C09] predicate-called-once-with-its-inputs: ncalls == 1 && argsOK
+//@   ensures [C11] predicate-always-returns-nil: result == nil
+//@   ensures [C11] predicate-value-stored: implies(!upanic, predFinal == uret && predPanicFinal == predPanicEntry)
+//@   ensures [C04,C11] predicate-panic-recorded: implies(upanic, predPanicFinal == pv && predFinal == predEntry)
+
+//@ func role:parallel-task
+//@   requires job-runs-at-most-once: !ranEntry
+//@   ensures [C04] no-escaping-panic: !panics
+//@   ensures [C10,C09] task-called-once: ncalls == 1 && argsOK
+//@   ensures [C10,C18] success: implies(!upanic && uerr == nil, result == nil && ranFinal && events("TaskSuccess,TaskDone"))
+//@   ensures [C07,C08,C18] error-returned-unchanged: implies(!upanic && uerr != nil, result == uerr && ranFinal && events("TaskError,TaskDone") && evarg("TaskError", 2) == uerr)
+//@   ensures [C04,C18] panic-is-panic-error: implies(upanic, isPanicErr(result, pv) && ranFinal && events("TaskPanic,TaskDone") && evarg("TaskPanic", 2) == pv)
+
+//@ func role:slice-elem
+//@   ensures [C04] no-escaping-panic: !panics
+//@   ensures [C10,C09] element-function-called-once-with-this-iterations-copies: ncalls == 1 && argsOK && shapeOK
+//@   ensures [C10,C07,C08] returns-users-error: implies(!upanic, result == uerr)
+//@   ensures [C04] panic-is-panic-error: implies(upanic, isPanicErr(result, pv))
+
+//@ func role:map-elem
+//@   ensures [C04] no-escaping-panic: !panics
+//@   ensures [C10,C09] entry-function-called-once-with-this-iterations-copies: ncalls == 1 && argsOK && shapeOK
+//@   ensures [C10,C07,C08] returns-users-error: implies(!upanic, result == uerr)
+//@   ensures [C04] panic-is-panic-error: implies(upanic, isPanicErr(result, pv))
+
+//@ func role:end-hook
+//@   ensures [C04] no-escaping-panic: !panics
+//@   ensures [C10,C09] end-function-called-once: ncalls == 1 && argsOK
+//@   ensures [C10,C07] returns-users-error: implies(!upanic, result == uerr)
+//@   ensures [C04] panic-is-panic-error: implies(upanic, isPanicErr(result, pv))
